@@ -164,6 +164,35 @@ def build_san_so(harness_cpp):
     return out
 
 
+def build_dbg_so(harness_cpp):
+    """native build WITHOUT -DNDEBUG: DSPLIB_ASSUME(c) then also asserts c, which turns a violated compiler assumption into an abort with a message (replay of 'assume' findings)"""
+    libd = build_lib()
+    key = tree_hash(('dbg', open(harness_cpp, 'rb').read()))
+    name = os.path.basename(harness_cpp)[:-4]
+    d = os.path.join(CACHE, f'san-dbg-{name}-{key}')
+    out = os.path.join(d, 'native_dbg.so')
+    if os.path.exists(out):
+        return out
+    tmp = d + '.tmp%d' % os.getpid()
+    shutil.rmtree(tmp, ignore_errors=True); os.makedirs(tmp)
+    cs = cache_size_define()
+    flags = ['-std=c++17', '-O1', '-g', '-D' + GUARD, f'-DDSPLIB_FFT_CACHE_SIZE={cs}', '-fPIC', '-w', '-pthread']
+    def one(src):
+        base = os.path.relpath(src, os.path.join(REPO, 'lib')).replace('/', '_')[:-4]
+        _run(['g++'] + flags + includes(libd) + ['-c', src, '-o', os.path.join(tmp, base + '.o')])
+        return os.path.join(tmp, base + '.o')
+    with ThreadPoolExecutor(16) as ex:
+        objs = list(ex.map(one, lib_sources()))
+    _run(['g++'] + flags + includes(libd) + ['-shared', harness_cpp] + objs + ['-o', os.path.join(tmp, 'native_dbg.so')])
+    for o in objs:
+        os.remove(o)
+    if os.path.exists(d):
+        shutil.rmtree(tmp)
+    else:
+        os.rename(tmp, d)
+    return out
+
+
 def _gc(keep=6):
     """bound the cache: keep the most recent few lib/h dirs"""
     try:
